@@ -126,6 +126,8 @@ def seeded(names, seconds=15):
         dirs = [d for d in dirs if any(n in os.path.basename(d) for n in names)]
     failed = 0
     for d in dirs:
+        if not os.path.exists(os.path.join(d, 'meta.json')):
+            continue
         meta = json.load(open(os.path.join(d, 'meta.json')))
         prop = meta['property']
         scratch = tempfile.mkdtemp(prefix='amc-seeded-')
